@@ -271,6 +271,9 @@ Definition run_case (c : value) : value :=
                     (bkl_cli o (map str_of (list_of (lookup_or_null "fmts" (map_of t)))) (dec_fs fsv) opts)
         | _ => bad_case
         end
+      else if String.eqb opn "wrappedname" then
+        (* [argv0 base name]: the program cmd/bklb runs, or null when the name does not end in b *)
+        match args with [VStr n] => match wrapped_name n with Some w => VList [VStr "run"; VStr w] | None => VNull end | _ => bad_case end
       else if String.eqb opn "normalize" then
         (* [raw]: normalize.go on the Go value a decoder produced *)
         match args with [r] => enc_res (fun x => x) (normalize (dec_raw (size r) r)) | _ => bad_case end
